@@ -566,6 +566,20 @@ acquire_stop(struct AcquireRuntime* self_)
         ECHO(thread_join(&video->sink.thread));
         channel_accept_writes(&video->sink.in, 1);
 
+        // The sink thread has exited. If it stopped early (storage failure,
+        // abort) frames may be left in its queue: drop them, or they would be
+        // handed to storage at the start of the next acquisition.
+        if (video->sink.reader.id) {
+            size_t nbytes;
+            do {
+                struct slice slice =
+                  channel_read_map(&video->sink.in, &video->sink.reader);
+                nbytes = slice_size_bytes(&slice);
+                channel_read_unmap(
+                  &video->sink.in, &video->sink.reader, nbytes);
+            } while (nbytes);
+        }
+
         // If the monitor has been initialized and its read region hasn't
         // already been released, flush it. This takes at most 2 iterations.
         if (video->monitor.reader.id) {
